@@ -83,6 +83,7 @@ func (c *core) execFunc() (*Response, error) {
 
 	var err error
 	go func() {
+		verifGate("exec.workerStart", c.req)
 		respv := fasthttp.AcquireResponse()
 		defer func() {
 			fasthttp.ReleaseRequest(reqv)
